@@ -18,3 +18,4 @@ void __VERIF_memcpy(char*, char*, uint64_t); void __VERIF_memmove(char*, char*, 
 char* __VERIF_base_of_gen(char* ti);
 void __VERIF_resume(char* obj);
 #endif
+void __VERIF_throw_static(char* obj, char* tinfo);
